@@ -189,6 +189,33 @@ func runSuite(c *vf.Check, s *suiteModel, R1, R2 []fmod.V, part, parts int) {
 						return
 					}
 				}
+				// a pairing result is a value of its own: updating one in place (an accumulator) changes neither the next
+				// result of the same call nor the operands
+				acc := suite.Pair(p.P, q.P)
+				pe, qe := fmod.Enc(p.P), fmod.Enc(q.P)
+				acc.Add(acc, s.gt.Gen())
+				acc.Add(s.gt.Gen(), acc)
+				acc.Neg(acc)
+				next := suite.Pair(p.P, q.P)
+				c.Eval(1)
+				if !next.Equal(want) || !bytes.Equal(fmod.Enc(next), fmod.Enc(want)) {
+					x.Failf(pk+"/Pair-result-shared", "%s: after an earlier result of the same call was updated in place, Pair returns another value", id)
+					return
+				}
+				if !bytes.Equal(fmod.Enc(p.P), pe) || !bytes.Equal(fmod.Enc(q.P), qe) {
+					x.Failf(pk+"/Pair-changes-operand", "%s: an operand changed", id)
+				}
+				// e + e accumulated in either operand position equals 2e
+				two := s.gt.Group.Point().Add(want, want)
+				a1 := suite.Pair(p.P, q.P)
+				a1.Add(a1, want)
+				a2 := suite.Pair(p.P, q.P)
+				a2.Add(want, a2)
+				a3 := suite.Pair(p.P, q.P)
+				a3.Add(a3, a3)
+				if !a1.Equal(two) || !a2.Equal(two) || !a3.Equal(two) {
+					x.Failf(pk+"/GT-accumulate", "%s: accumulating the pairing value in place (r.Add(r,e), r.Add(e,r), r.Add(r,r)) does not give 2e", id)
+				}
 			})
 			c.Count("transitions", 1)
 			if !p.Vec.IsZero() && !q.Vec.IsZero() {
